@@ -273,7 +273,7 @@ def run_case(case, vector):
         faults.install_simlib(vector)
     viol = []
     stats = {"steps": 0, "raised": 0, "natural_exc": {}, "faults_planned": len(case.get("faults", ())),
-             "faults_fired": {"lib": 0, "flt": 0}, "torn_checks": 0, "sys_switches": 0, "states": []}
+             "faults_fired": {"lib": 0, "flt": 0, "alloc": 0}, "torn_checks": 0, "sys_switches": 0, "states": []}
     v = build(vector, case["start"])
     plan = {}
     for f in case.get("faults", ()):
